@@ -13,8 +13,8 @@ import (
 	"path/filepath"
 	"strings"
 	"syscall"
-	"time"
 	"testing/iotest"
+	"time"
 
 	"github.com/gabriel-vasile/mimetype"
 
@@ -67,6 +67,9 @@ type c05Sched struct {
 	SetLimitTo int64 `json:"set_limit_to"`
 	// ErrClass selects the injected error value from errClasses (0 = the plain sentinel).
 	ErrClass int `json:"err_class"`
+	// ErrOnce: the error is reported once (together with the bytes in front of it when ErrWith is
+	// set); later calls deliver the rest of the data as if nothing had happened.
+	ErrOnce bool `json:"err_once"`
 }
 
 type c05Reader struct {
@@ -101,7 +104,7 @@ func (r *c05Reader) Read(p []byte) (int, error) {
 		r.zero--
 		return 0, nil
 	}
-	if r.s.ErrAt >= 0 && r.pos >= r.s.ErrAt {
+	if r.s.ErrAt >= 0 && r.pos >= r.s.ErrAt && !(r.s.ErrOnce && r.sentAt >= 0) {
 		r.sentAt = r.handed
 		return 0, errClasses[r.s.ErrClass%len(errClasses)]
 	}
@@ -123,13 +126,13 @@ func (r *c05Reader) Read(p []byte) (int, error) {
 	if n > len(r.b)-r.pos {
 		n = len(r.b) - r.pos
 	}
-	if r.s.ErrAt >= 0 && r.pos+n > r.s.ErrAt {
+	if r.s.ErrAt >= 0 && r.pos+n > r.s.ErrAt && !(r.s.ErrOnce && r.sentAt >= 0) {
 		n = r.s.ErrAt - r.pos
 	}
 	copy(p, r.b[r.pos:r.pos+n])
 	r.pos += n
 	r.handed += n
-	if r.s.ErrAt >= 0 && r.pos == r.s.ErrAt && r.s.ErrWith {
+	if r.s.ErrAt >= 0 && r.pos == r.s.ErrAt && r.s.ErrWith && !(r.s.ErrOnce && r.sentAt >= 0) {
 		r.sentAt = r.handed
 		return n, errClasses[r.s.ErrClass%len(errClasses)]
 	}
@@ -197,7 +200,7 @@ func c05JudgeReader(c *fw.Ctx, kind string, x []byte, limit uint32, prev uint32,
 		g := *c05CurGen
 		p.In, p.Gen = nil, &g
 	}
-	key := fw.InputKey(x, limit, fmt.Sprintf("DetectReader/chunk=%d/zero=%d/eofwith=%v/errat=%d/errwith=%v/prev=%d", s.Chunk, s.ZeroN, s.EOFWith, s.ErrAt, s.ErrWith, prev))
+	key := fw.InputKey(x, limit, fmt.Sprintf("DetectReader/chunk=%d/zero=%d/eofwith=%v/errat=%d/errwith=%v/once=%v/prev=%d", s.Chunk, s.ZeroN, s.EOFWith, s.ErrAt, s.ErrWith, s.ErrOnce, prev))
 	c.Trace(func() (string, any) { return key, p })
 	var want lib.Chain
 	var m *mimetype.MIME
@@ -445,7 +448,7 @@ func c05Run(c *fw.Ctx, b fw.Batch) {
 					if ea < -1 || ea > len(x) {
 						ea = -1
 					}
-					sc := c05Sched{Chunk: ch, ZeroN: r.Intn(2), ErrAt: ea, ErrWith: r.Intn(2) == 0, ErrClass: r.Intn(len(errClasses)), RandSeed: r.Int63(), SetLimitTo: -1}
+					sc := c05Sched{Chunk: ch, ZeroN: r.Intn(2), ErrAt: ea, ErrWith: r.Intn(2) == 0, ErrOnce: r.Intn(3) == 0, ErrClass: r.Intn(len(errClasses)), RandSeed: r.Int63(), SetLimitTo: -1}
 					c05JudgeReader(c, "long-stream", x, uint32(L), uint32(L), sc)
 					c.Count("long_stream_cases", 1)
 					c.Max("largest_limit_with_a_longer_stream", int64(L))
@@ -576,7 +579,7 @@ func c05Run(c *fw.Ctx, b fw.Batch) {
 						step = 1 + hdr/300
 					}
 					for at := 0; at <= hdr; at += step {
-						s := c05Sched{Chunk: c05Chunks[r.Intn(len(c05Chunks))], ZeroN: r.Intn(2), EOFWith: r.Intn(2) == 0, ErrAt: at, ErrWith: r.Intn(2) == 0, RandSeed: r.Int63(), SetLimitTo: -1, ErrClass: r.Intn(3) * r.Intn(len(errClasses))}
+						s := c05Sched{Chunk: c05Chunks[r.Intn(len(c05Chunks))], ZeroN: r.Intn(2), EOFWith: r.Intn(2) == 0, ErrAt: at, ErrWith: r.Intn(2) == 0, ErrOnce: r.Intn(3) == 0, RandSeed: r.Int63(), SetLimitTo: -1, ErrClass: r.Intn(3) * r.Intn(len(errClasses))}
 						c05JudgeReader(c, "fault", x, lim, lim, s)
 					}
 					if hdr > 0 && step > 1 { // always the last offsets too
@@ -672,8 +675,8 @@ func c05Paths(c *fw.Ctx, dir string) {
 	}
 	must(os.MkdirAll(filepath.Join(root, "store", "2024"), 0o700))
 	must(os.MkdirAll(filepath.Join(root, "d", "sub"), 0o700))
-	must(os.WriteFile(filepath.Join(root, "store", "cover"), png, 0o600))      // what link/../cover really is
-	must(os.WriteFile(filepath.Join(root, "cover"), txt, 0o600))               // what a lexically cleaned path would open
+	must(os.WriteFile(filepath.Join(root, "store", "cover"), png, 0o600))       // what link/../cover really is
+	must(os.WriteFile(filepath.Join(root, "cover"), txt, 0o600))                // what a lexically cleaned path would open
 	must(os.WriteFile(filepath.Join(root, "store", "2024", "doc"), pdf, 0o600)) // reached through the link
 	must(os.WriteFile(filepath.Join(root, "d", "f.bin"), pdf, 0o600))
 	must(os.WriteFile(filepath.Join(root, "d", " lead"), png, 0o600))
@@ -788,7 +791,7 @@ func init() {
 	fw.Register(&fw.Prop{
 		ID:    "C05",
 		Level: "fault_enumeration",
-		Rule: "inputs = every seed + text tails + small text documents; limits {0, 1, len-1, len, len+1, 3072, random}; chunk schedules {1, 2, 3, 7, 512, as-asked, random 1-9, random 1-2000} with occasional (0, nil) reads and data returned together with io.EOF; a preceding DetectReader under a different limit (state left behind); an error (a plain sentinel, and error values of 15 classes: deadline exceeded bare / wrapped / in a net.OpError, context errors, closed pipe, ECONNRESET, EINTR, EAGAIN, a PathError, an error whose text is \"EOF\") injected at EVERY offset 0..min(len, limit) for headers <= 600 bytes (every k-th and the last 4 offsets beyond), returned alone or together with the last bytes before it; the standard library's concrete readers (bytes.Buffer, bytes.Reader, strings.Reader, bufio.Reader, io.LimitReader, io.MultiReader, iotest one-byte / half / data-with-error readers) with their consumption checked; DetectFile over temp files for every input and limit, an empty file, procfs files (regular files whose stat size is 0), sparse files of 2 GiB … 8 GiB whose size does not fit 31 / 32 bits, a missing path, a directory (EISDIR) and /proc/self/mem (read error), path spellings that only the operating system resolves correctly (symlink followed by '..', '//', '/./', trailing '/', names with blanks / newline / non-ASCII / 250 and 300 bytes, dangling link, empty path: expectation = what os.ReadFile delivers for the same string) and named pipes; streams much longer than the limit (JSON / text / CSV / NDJSON / zero fillers of limit + 1 … limit + 70000 bytes with one deciding defect at limit-1, limit-2, limit, limit/2, a page boundary …) for limits 4095 … 5 MiB with chunk sizes as-asked / 4096 / 32769 / 65536 and errors of every class injected just before, at and after the limit. The instrumented reader records bytes handed out, calls, and when the sentinel was really returned; expectations are derived from those observations. " +
+		Rule: "inputs = every seed + text tails + small text documents; limits {0, 1, len-1, len, len+1, 3072, random}; chunk schedules {1, 2, 3, 7, 512, as-asked, random 1-9, random 1-2000} with occasional (0, nil) reads and data returned together with io.EOF; a preceding DetectReader under a different limit (state left behind); an error (a plain sentinel, and error values of 15 classes: deadline exceeded bare / wrapped / in a net.OpError, context errors, closed pipe, ECONNRESET, EINTR, EAGAIN, a PathError, an error whose text is \"EOF\") injected at EVERY offset 0..min(len, limit) for headers <= 600 bytes (every k-th and the last 4 offsets beyond), returned alone or together with the last bytes before it, sticky or reported only once (the next Read delivers data again); the standard library's concrete readers (bytes.Buffer, bytes.Reader, strings.Reader, bufio.Reader, io.LimitReader, io.MultiReader, iotest one-byte / half / data-with-error readers) with their consumption checked; DetectFile over temp files for every input and limit, an empty file, procfs files (regular files whose stat size is 0), sparse files of 2 GiB … 8 GiB whose size does not fit 31 / 32 bits, a missing path, a directory (EISDIR) and /proc/self/mem (read error), path spellings that only the operating system resolves correctly (symlink followed by '..', '//', '/./', trailing '/', names with blanks / newline / non-ASCII / 250 and 300 bytes, dangling link, empty path: expectation = what os.ReadFile delivers for the same string) and named pipes; streams much longer than the limit (JSON / text / CSV / NDJSON / zero fillers of limit + 1 … limit + 70000 bytes with one deciding defect at limit-1, limit-2, limit, limit/2, a page boundary …) for limits 4095 … 5 MiB with chunk sizes as-asked / 4096 / 32769 / 65536 and errors of every class injected just before, at and after the limit. The instrumented reader records bytes handed out, calls, and when the sentinel was really returned; expectations are derived from those observations. " +
 			"non-trivial = a short-read schedule or an injected fault actually occurred before the header was complete; distinct = distinct (chunk kind, zero reads, EOF-with-data, limit class, error offset class, error-with-data, previous-limit differs, outcome).",
 		Assumptions: []string{
 			"only conforming readers: never n > len(p), never endless (0, nil)",
